@@ -6,7 +6,7 @@ FS = b"\x1f"
 seeds = {k: [] for k in "text tokenizer keyval options path table dist interval formula numcalc".split()}
 def b(x): return x if isinstance(x, bytes) else x.encode()
 # text: op byte % 24
-texts = ["", " ", "abc", "  hello world \n", "-12.5e+3", "1e5", "-", ".", "e5", "12", "+3", "1.2.3", "a(b(c)d)e", "x[1]y[2]", "((", "))", "a)b", "tab\tsep\r\n\n", "\xff\xfe", "0", "-0", "1e", "1e+", "1e-2", "007", "2147483648", "1e400"]
+texts = ["", " ", "abc", "  hello world \n", "-12.5e+3", "1e5", "-", ".", "e5", "12", "+3", "1.2.3", "a(b(c)d)e", "x[1]y[2]", "((", "))", "a)b", "tab\tsep\r\n\n", "\xff\xfe", "0", "-0", "1e", "1e+", "1e-2", "007", "2147483648", "1e400", "1e999", "1e-999", "99999999999", "-99999999999", "4.9e-324"]
 for op in range(24):
     for t in texts[:: 3 if op > 15 else 1]:
         if op in (3, 4): seeds["text"].append(bytes([op, 0, 0]) + b(t))
@@ -51,6 +51,7 @@ for op in (0, 16, 32, 48, 1, 2, 3, 19):
 for op in (4, 20, 36, 52):
     for nm in ("a", "x.y", ""):
         seeds["options"].append(bytes([op]) + (b"" if op & 16 else b"_1" + FS) + b(nm) + FS + b"a=1.5\nx.y=true\na_1=3\nb=(1,2)")
+        seeds["options"].append(bytes([op]) + (b"" if op & 16 else b"_1" + FS) + b(nm) + FS + b"a=1e999\nx.y=99999999999\na_1=1e-999")
 for sepb in (0, 1, 2):
     for v in ["1,2,3", "(1,2,3)", "((1,2),(3,4))", "1-5,7", "a,b", "", "(", "()", "1:3", "(1,2),(3)", "5-1", "1;2;3", "(1,2)(3,4)", "-"]:
         seeds["options"].append(bytes([5, sepb]) + b"v" + FS + b(v))
@@ -75,9 +76,9 @@ dists = ["Gamma(n=4,alpha=0.5)", "Gamma(n=4,alpha=0.5,beta=2)", "Constant(value=
          "Simple(values=(1,2,3),probas=(0.2,0.3,0.5),ranges=(V1[0;2],V2[1;3]))", "Gamma(n=4,Gamma.alpha=0.5)", "Uniform(n=3,begin=2,end=0)", "Dirichlet(classes=3)", "Exponential(n=4,lambda=0)", "Beta(n=1,alpha=0.1,beta=0.1)"]
 for op in (0, 1):
     for t in dists: seeds["dist"].append(bytes([op]) + b(t))
-for t in ["[0;1]", "]0;1[", "[-inf;inf]", "]-inf;+inf[", "[1;0]", "[;]", "[", "", "[0;1", "0;1]", "[a;b]", "[1e5;1e6]", "];[", "[0;1];", "[0,1]", "[ 0 ; 1 ]", "]1;1["]:
+for t in ["[0;1]", "]0;1[", "[-inf;inf]", "]-inf;+inf[", "[1;0]", "[;]", "[", "", "[0;1", "0;1]", "[a;b]", "[1e5;1e6]", "];[", "[0;1];", "[0,1]", "[ 0 ; 1 ]", "]1;1[", "[1e999;2]", "[0;1e-999]"]:
     seeds["interval"].append(b(t))
-for t in ["1+2", "2*(3+4)", "-x", "exp(1)", "log(2)/3", "", "(", ")", "1+", "*", "((1))", "--1", "1e5*2", "exp(", "a+b", "1/0", "exp(log(1))", "(1)(2)", "1-(-2)", "+1"]:
+for t in ["1+2", "2*(3+4)", "-x", "exp(1)", "log(2)/3", "", "(", ")", "1+", "*", "((1))", "--1", "1e5*2", "exp(", "a+b", "1/0", "exp(log(1))", "(1)(2)", "1-(-2)", "+1", "1e999+1", "2*1e-999", "99999999999999999999"]:
     seeds["formula"].append(b(t))
 for t in ["1,2,5-8", "1-3", "3-1", "", ",", "-", "a", "1--2", "1,,2"]:
     seeds["numcalc"].append(bytes([24]) + b(t)); seeds["numcalc"].append(bytes([0]) + b"," + FS + b"-" + FS + b(t)); seeds["numcalc"].append(bytes([0]) + FS + FS + b(t))
